@@ -245,12 +245,14 @@ def body(ck, F, cfg):
     # R16.3 half-open gate on the prover
     R = run_method(F, "prover", "allocate", None)
     sec = R["state"].fields["secrets"].fields
-    ok = eq(sec["a_L"].index(c).e, ssym("x")) and eq(sec["a_R"].index(c).e, 0) and eq(sec["a_O"].index(c).e, 0)
+    vals0 = [sec[k_].index(c) for k_ in ("a_L", "a_R", "a_O")]
+    ok = all(isinstance(v_, Sc) for v_ in vals0) and eq(vals0[0].e, ssym("x")) and eq(vals0[1].e, 0) and eq(vals0[2].e, 0)
     ck.require(ok, "R16.3", "open-gate", f"first single allocation must push (x, 0, 0); got ({show(sec['a_L'].index(c))}, {show(sec['a_R'].index(c))}, {show(sec['a_O'].index(c))})")
     R = run_method(F, "prover", "allocate", p)
     sec = R["state"].fields["secrets"].fields
     bnd = R["I"].bounds
-    ok = eq(sec["a_R"].index(p, bnd).e, ssym("x")) and eq(sec["a_O"].index(p, bnd).e, sfun("aL")(p) * ssym("x")) and eq(sec["a_L"].index(p, bnd).e, sfun("aL")(p))
+    vals = [sec[k_].index(p, bnd) for k_ in ("a_R", "a_O", "a_L")]
+    ok = all(isinstance(v_, Sc) for v_ in vals) and eq(vals[0].e, ssym("x")) and eq(vals[1].e, sfun("aL")(p) * ssym("x")) and eq(vals[2].e, sfun("aL")(p))
     ck.require(ok, "R16.3", "close-gate", f"second single allocation must set a_R[p]=x, a_O[p]=a_L[p]*x; got a_R[p]={show(sec['a_R'].index(p, bnd))}, a_O[p]={show(sec['a_O'].index(p, bnd))}")
     # R16.5 error before state: missing assignment
     for method in ("allocate", "allocate_multiplier"):
